@@ -51,6 +51,20 @@ CLAIMED = {
              'but no tabulated energy (data-dependent numeric fact), rounding.',
         technique='path-sensitive abstract interpretation with exact rational normal forms vs name-derived oracle',
     ),
+    'C11': dict(
+        category='proof',
+        text='AugerYield_prdata, AugerYield2_prdata and AugerRate_prdata (src/pr_data.c and their copies in '
+             'java/pr_data_java.c) are enumerated path by path; every one of the 996 Auger macros is assigned to the '
+             'abstract path that serves it (switch partition + range tests) and the returned normal form is compared with '
+             'the stated derivation instantiated from the macro names (CK transitions leaving each shell; the 351 '
+             'Coster-Kronig-type macros; normalising shell = initial shell of the macro). Fill loops and public accessors '
+             'checked for range/table/positivity. Thorough tier (translation validation): all 120 600 cells of the two '
+             'generated tables are re-derived from auger_rates.dat, fluor_yield.dat, coskron.dat.',
+        design_ref='DESIGN.md section 2, C11',
+        note='Trusted: clang front end, E1/E2/E3 engines, data readers; thorough tier compares %.10E literals with a '
+             'double-precision re-derivation to 5e-10 relative.',
+        technique='path-sensitive abstract interpretation + name-derived oracle; generated-table validation against data files',
+    ),
 }
 
 NOT_YET = {}
